@@ -158,7 +158,8 @@ def handler_src(prog, part, m, in_trait):
     # (the plain `impl Interface for Contract` block is not a macro input)
     with_attr = in_trait or part["id"] == "own"
     params = "".join(", %s%s: %s" % (PARAM_ATTR.get(a["t"], "") if with_attr else "", rn(a), gen_name if a["t"] == "GenT" else TYPES[a["t"]][0]) for a in m["args"])
-    ret = RESP_TY[m.get("ret") or m.get("resp") or "QResp"] if m["kind"] == "query" else "Response"       # what the handler returns
+    rname = m.get("ret") or m.get("resp") or "QResp"
+    ret = (gen_name if rname == "GenT" else RESP_TY[rname]) if m["kind"] == "query" else "Response"       # what the handler returns
     explicit = m["kind"] == "query" and m.get("explicit")
     aliased = explicit and m.get("sig", "alias") == "alias"
     attr = "#[sv::msg(%s%s)]" % (m["kind"], (", resp=%s" % m["resp"]) if explicit else "")
@@ -203,7 +204,7 @@ def wrap_path(prog, kind):
 
 
 def uses_gen(part):
-    return any(a["t"] == "GenT" for m in part["methods"] for a in m["args"])
+    return any(a["t"] == "GenT" for m in part["methods"] for a in m["args"]) or any(m.get("resp") == "GenT" for m in part["methods"])
 
 
 def generic_aliases(prog):
@@ -368,6 +369,20 @@ def schema_src(prog):
     o.append("        let root = sylvia::cw_schema::schemars::schema_for!(%s);\n"
              "        let anyof = root.schema.subschemas.as_ref().and_then(|s| s.any_of.as_ref()).map(|a| a.len() as i64).unwrap_or(-1);\n"
              "        rec::schemas(\"%s\", \"contract\", <%s as QueryResponses>::response_schemas().map_err(|e| e.to_string()), anyof);\n    }\n\n" % (w, prog["id"], w))
+    if prog.get("family") == "generic":
+        # the same tables of the same generic contract used with another type, asked in the same process
+        o[-1] = o[-1][:-len("    }\n\n")]
+        c2 = "Ctr<verif_rrt::GenVal2>"
+        for p in prog["parts"]:
+            ty = ("<%s as sylvia::types::ContractApi>::Query" % c2) if p["id"] == "own" else ("<%s as %s::sv::InterfaceMessagesApi>::Query" % (c2, imod(p)))
+            o.append("        rec::schemas_at(\"%s\", \"%s\", \"GenVal2\", <%s as QueryResponses>::response_schemas().map_err(|e| e.to_string()), -1);\n" % (prog["id"], p["id"], ty))
+        w2 = "<%s as sylvia::types::ContractApi>::ContractQuery" % c2
+        o.append("        let root = sylvia::cw_schema::schemars::schema_for!(%s);\n"
+                 "        let anyof = root.schema.subschemas.as_ref().and_then(|s| s.any_of.as_ref()).map(|a| a.len() as i64).unwrap_or(-1);\n"
+                 "        rec::schemas_at(\"%s\", \"contract\", \"GenVal2\", <%s as QueryResponses>::response_schemas().map_err(|e| e.to_string()), anyof);\n" % (w2, prog["id"], w2))
+        # ... and once more with the first type (a table must not depend on what was asked before)
+        w = wrap_path(prog, "query")
+        o.append("        rec::schemas(\"%s\", \"contract\", <%s as QueryResponses>::response_schemas().map_err(|e| e.to_string()), anyof);\n    }\n\n" % (prog["id"], w))
     return "".join(o)
 
 
@@ -584,7 +599,7 @@ def program_src(prog):
         o.append("        }\n    }%s\n\n" % (" }" if nested else ""))
     o.append(override_src(prog))
     gen_hdr = "<T>" if generic else ""
-    gen_where = " where T: sylvia::types::CustomMsg + 'static" if generic else ""
+    gen_where = " where T: sylvia::types::CustomMsg + rec::QShape + 'static" if generic else ""
     # the contract is a value: `new()` makes the one the entry points use (tag 0); the harness calls the multitest impl on another
     o.append("    pub struct Ctr<T> { pub tag: u32, _p: std::marker::PhantomData<T> }\n\n" if generic else "    pub struct Ctr { pub tag: u32 }\n\n")
     for p in ifaces:
